@@ -11,7 +11,9 @@ LIMITS = {"byte": 256, "char": 253, "short": 253 ** 2, "three": 253 ** 3, "int":
 
 def _int(rng, t):
     lim = LIMITS[t]
-    return rng.choice([0, 1, lim - 1, lim - 2, 252, 253, 254, 255, rng.randrange(lim), rng.randrange(lim)]) % lim
+    # (253^2, 253^3 and neighbours: numbers whose middle base-253 digits are zero)
+    return rng.choice([0, 1, lim - 1, lim - 2, 252, 253, 254, 255, 64009, 64010, 64009 + 5 * 253, 16194277, 16194277 + 7, 16194277 + 64009 * 3,
+                       rng.randrange(lim), rng.randrange(lim), rng.randrange(lim)]) % lim
 
 
 def _string(rng, n=None, maxlen=12, lossless=False):
